@@ -1,6 +1,12 @@
-// C20 harness: drives a real TeamCityTestOutput (subclassed only to capture printBuffer) through a private TestRegistry with
-// scripted tests and prints the captured byte stream and how often each test body was executed.
-// Scenario:  [ :opt <run-ignored 0|1> <passes> ] <dur> <nfilters> { <name> } <ntests> { <group> <name> <file> <line> <ignored> <nstmts> { :p <text> | :f <file> <line> <msg> | :x <file> <line> <msg> } }
+// C20 harness: drives a real TeamCityTestOutput through a private TestRegistry with scripted tests and prints the byte stream that
+// reached the sink and how often each test body was executed.
+// Scenario:  [ :con <sink> <verbosity> ] [ :opt <run-ignored 0|1> <passes> ] <dur> <nfilters> { <name> } <ntests> { <group> <name> <file> <line> <ignored> <nstmts> { :p <text> | :f <file> <line> <msg> | :x <file> <line> <msg> } }
+//            sink = where the stream is observed: 0 (default) a subclass of TeamCityTestOutput that overrides printBuffer / flush (a test
+//              double below the writer); 1 the REAL TeamCityTestOutput on the real ConsoleTestOutput::printBuffer / flush, with the
+//              PlatformSpecificFPuts / PlatformSpecificFlush seams replaced by collectors (what is handed to the platform for stdout);
+//              2 the real TeamCityTestOutput on the real platform functions (fputs / fflush on stdout) with file descriptor 1
+//              redirected to a scratch file for the time the output object lives, the stdio buffer flushed at the end as exit() does;
+//            verbosity = 0 quiet, 1 TestOutput::level_verbose (-v), 2 level_veryVerbose (-vv); without the prefix: 0 0;
 //            run-ignored = TestRegistry::setRunIgnored() (-ri) before the first pass; passes = how often TestRegistry::runAllTests is
 //            called on the same registry and the same output object, each time with a fresh TestResult (-r<n>, as
 //            CommandLineTestRunner::runAllTests does); without the prefix: off, one pass;
@@ -8,8 +14,8 @@
 //            dur = milliseconds every test that runs takes (the clock seam is advanced by the test body);
 //            filters = strict name filters (-sn): with at least one, only tests whose name equals one of them run;
 //            :p = TestResult::print(text), :f = addFailure (test continues), :x = fail() (test terminates)
-//            :raw <bytes>   -- parser differential only: answered by  :raw <bytes>  (no library code involved)
-// Observation: <stream> <n> { <count> }   everything the output object passed to printBuffer, in order; then for every pass, for every
+//            :raw <bytes> / :rawv <bytes>  -- parser differential only: answered by the same line (no library code involved)
+// Observation: <stream> <n> { <count> }   everything that reached the sink, in order; then for every pass, for every
 //            registered test in order, how often testBody() of that test was entered during that pass (n = passes * ntests).
 #include "CppUTest/TestHarness.h"
 #include "CppUTest/TestRegistry.h"
@@ -20,6 +26,10 @@
 #include "CppUTest/PlatformSpecificFunctions.h"
 #include "hlib.h"
 #include <memory>
+#include <unistd.h>
+#include <fcntl.h>
+#include <sys/stat.h>
+#include <sys/mman.h>
 using namespace hl;
 
 struct Stmt { char kind; std::string text, file; size_t line; };
@@ -70,16 +80,57 @@ public:
     void flush() CPPUTEST_OVERRIDE {}
 };
 
+// sink 1: what the library hands to the platform for standard output, chunk by chunk
+static std::string seam_bytes;
+static unsigned long seam_puts = 0, seam_flushes = 0;
+static void seamFPuts(const char* str, PlatformSpecificFile file) { if (file == PlatformSpecificStdOut) { seam_bytes += str; seam_puts++; } }
+static void seamFlush(void) { seam_flushes++; }
+
+// sink 2: file descriptor 1 goes to a scratch file while the output object lives
+static int scratch_fd = -1, saved_fd1 = -1;
+static void fd1_begin()
+{
+    if (scratch_fd < 0) {
+        scratch_fd = memfd_create("c20-stdout", 0);
+        if (scratch_fd < 0) { FILE* f = tmpfile(); scratch_fd = f ? dup(fileno(f)) : -1; }
+        if (scratch_fd < 0) { perror("C20 harness: scratch file"); _exit(3); }
+    }
+    fflush(stdout);
+    if (ftruncate(scratch_fd, 0) != 0 || lseek(scratch_fd, 0, SEEK_SET) < 0) { perror("C20 harness: ftruncate"); _exit(3); }
+    saved_fd1 = dup(1);
+    if (saved_fd1 < 0 || dup2(scratch_fd, 1) < 0) { perror("C20 harness: dup"); _exit(3); }
+}
+static std::string fd1_end()
+{
+    fflush(stdout);                                  // what exit() would still push out of the stdio buffer
+    if (dup2(saved_fd1, 1) < 0) _exit(3);
+    close(saved_fd1); saved_fd1 = -1;
+    struct stat st; std::string data;
+    if (fstat(scratch_fd, &st) != 0) _exit(3);
+    data.resize((size_t)st.st_size);
+    size_t got = 0;
+    while (got < data.size()) {
+        ssize_t k = pread(scratch_fd, &data[got], data.size() - got, (off_t)got);
+        if (k <= 0) _exit(3);
+        got += (size_t)k;
+    }
+    return data;
+}
+
 int main()
 {
+    void (*const realFPuts)(const char*, PlatformSpecificFile) = PlatformSpecificFPuts;
+    void (*const realFlush)(void) = PlatformSpecificFlush;
     GetPlatformSpecificTimeInMillis = myMillis;
     Toks t; Out o;
     while (readline(t)) {
-        if (t.peek() == ":raw") {
-            t.next(); std::string b; t.bytes(b);
-            o << std::string(":raw") << hbytes(b.data(), b.size()); o.flush();
+        if (t.peek() == ":raw" || t.peek() == ":rawv") {
+            std::string tag = t.peek(); t.next(); std::string b; t.bytes(b);
+            o << tag << hbytes(b.data(), b.size()); o.flush();
             continue;
         }
+        int sink = 0, verbosity = 0;
+        if (t.peek() == ":con") { t.next(); sink = t.n(); verbosity = t.n(); if (sink < 0 || sink > 2) sink = 0; }
         bool ri = false; int passes = 1;
         if (t.peek() == ":opt") { t.next(); ri = t.u() != 0; passes = t.n(); if (passes < 0 || passes > 8) passes = 8; }
         dur_ms = (unsigned long)t.u(); now_ms = 0;
@@ -116,13 +167,22 @@ int main()
             reg.setNameFilters(chain);
             if (ri) reg.setRunIgnored();
             n_tests = (size_t)n; exec_counts.assign((size_t)passes * n_tests, 0);
-            CapturingTeamCityOutput out;
-            for (cur_pass = 0; cur_pass < (size_t)passes; cur_pass++) {
-                out.printTestRun(cur_pass + 1, (size_t)passes);
-                TestResult result(out);
-                reg.runAllTests(result);
-            }
-            stream = out.captured;
+            if (sink == 1) { seam_bytes.clear(); seam_puts = seam_flushes = 0; PlatformSpecificFPuts = seamFPuts; PlatformSpecificFlush = seamFlush; }
+            if (sink == 2) fd1_begin();
+            {
+                std::unique_ptr<TeamCityTestOutput> outp(sink == 0 ? new CapturingTeamCityOutput : new TeamCityTestOutput);
+                TeamCityTestOutput& out = *outp;
+                if (verbosity == 1) out.verbose(TestOutput::level_verbose);
+                if (verbosity >= 2) out.verbose(TestOutput::level_veryVerbose);
+                for (cur_pass = 0; cur_pass < (size_t)passes; cur_pass++) {
+                    out.printTestRun(cur_pass + 1, (size_t)passes);
+                    TestResult result(out);
+                    reg.runAllTests(result);
+                }
+                if (sink == 0) stream = static_cast<CapturingTeamCityOutput&>(out).captured;
+            }   // the output object is gone: whatever it still held has been written or is lost
+            if (sink == 1) { PlatformSpecificFPuts = realFPuts; PlatformSpecificFlush = realFlush; stream = seam_bytes; }
+            if (sink == 2) stream = fd1_end();
         }
         o << hbytes(stream.data(), stream.size()) << hx(exec_counts.size());
         for (unsigned long c : exec_counts) o << hx(c);
